@@ -6,4 +6,6 @@ func registerMore() {
 	commands["holdem-start"] = cmdHoldemStart
 	commands["pots-enum"] = cmdPotsEnum
 	commands["pots-one"] = cmdPotsOne
+	commands["rank-table"] = cmdRankTable
+	commands["holdem-deal"] = cmdHoldemDeal
 }
